@@ -276,13 +276,31 @@ Fixpoint find_tsig (fuel : nat) (m : bytes) (pos lim count : N) : outcome mtsig 
 
 Definition HEADER_LEN : N := 12.
 
+(* with T1 tsig_scan_all_sections: answer and authority are iterated with
+   ParsedRecord::parse and a TSIG record there is TsigError::Position *)
+Fixpoint scan_records (fuel : nat) (m : bytes) (pos lim count : N) : outcome N :=
+  match fuel with
+  | O => OutOfFuel
+  | S fuel' =>
+      if count =? 0 then Ok pos
+      else
+        do h <- to_err TE_PARSE (record_parse m pos lim);
+        if rh_type h =? RTYPE_TSIG then Err TE_POSITION
+        else scan_records fuel' m (rh_next h) lim (count - 1)
+  end.
+
 Definition from_message (m : bytes) : outcome mtsig :=
   let lim := mlen m in
   let fuel := S (length m) in
   do p1 <- to_err TE_PARSE (skip_questions fuel m HEADER_LEN lim (qdcount m));
-  do p2 <- to_err TE_PARSE (skip_records fuel m p1 lim (ancount m));
-  do p3 <- to_err TE_PARSE (skip_records fuel m p2 lim (nscount m));
-  find_tsig fuel m p3 lim (arcount m).
+  if tsig_scan_all_sections then
+    do p2 <- scan_records fuel m p1 lim (ancount m);
+    do p3 <- scan_records fuel m p2 lim (nscount m);
+    find_tsig fuel m p3 lim (arcount m)
+  else
+    do p2 <- to_err TE_PARSE (skip_records fuel m p1 lim (ancount m));
+    do p3 <- to_err TE_PARSE (skip_records fuel m p2 lim (nscount m));
+    find_tsig fuel m p3 lim (arcount m).
 
 (* MessageTsig::variables *)
 Definition other_time (other : bytes) : option N :=
